@@ -80,23 +80,23 @@ func (x *Exec) stdlib(s *State, in *ssa.Call, f *ssa.Function, args []Val) Val {
 	case "strconv.Itoa":
 		return scalar(sfun("itoa_", SStr, args[0].T))
 	case "strings.HasPrefix":
-		return scalar(sfun("strings.HasPrefix_", SBool, args[0].T, args[1].T))
+		return scalar(sfun("str_hasprefix", SBool, args[0].T, args[1].T))
 	case "strings.HasSuffix":
-		return scalar(sfun("strings.HasSuffix_", SBool, args[0].T, args[1].T))
+		return scalar(sfun("str_hassuffix", SBool, args[0].T, args[1].T))
 	case "strings.Contains":
-		return scalar(sfun("strings.Contains_", SBool, args[0].T, args[1].T))
+		return scalar(sfun("str_contains", SBool, args[0].T, args[1].T))
 	case "strings.Index":
-		r := x.define(s, "index", sfun("strings.Index_", x.intSort(), args[0].T, args[1].T))
+		r := x.define(s, "index", sfun("str_index", x.intSort(), args[0].T, args[1].T))
 		la, lb := x.strLen(s, args[0].T), x.strLen(s, args[1].T)
 		m1 := x.ilit(-1)
 		s.assume(And(x.le(m1, r), Implies(x.le(x.ilit(0), r), And(x.le(lb, la), x.le(r, x.sub(la, lb))))))
 		return scalar(r)
 	case "strings.TrimSpace":
-		r := x.define(s, "trim", sfun("strings.TrimSpace_", SStr, args[0].T))
+		r := x.define(s, "trim", sfun("str_trimspace", SStr, args[0].T))
 		s.assume(x.le(x.strLen(s, r), x.strLen(s, args[0].T)))
 		return scalar(r)
 	case "strings.ToLower":
-		return scalar(sfun("strings.ToLower_", SStr, args[0].T))
+		return scalar(sfun("str_tolower", SStr, args[0].T))
 	case "strings.Join", "strings.ReplaceAll", "(*strings.Replacer).Replace", "fmt.Sprintf", "(*bytes.Buffer).String", "(*regexp.Regexp).ReplaceAllString":
 		return x.freshVal(s, "str", types.Typ[types.String])
 	case "strings.NewReplacer", "hash/fnv.New64a":
@@ -135,8 +135,17 @@ func (x *Exec) stdlib(s *State, in *ssa.Call, f *ssa.Function, args []Val) Val {
 		if sb := x.p.lookupType("stringBuilder"); sb != nil {
 			s.assume(mk(SBool, "impl", tag, IntLit(int64(x.p.iface(sb)))))
 		}
+		// pool protocol: whatever is put back is empty (checked at Put), and New makes an empty one
+		x.assumed["sync.Pool: New returns an empty builder (zero strings.Builder); Get returns a New or a Put value"] = true
+		bufs := x.heapSym(s, "ghost:buf", SArray(SInt, SStr))
+		s.assume(Eq(Select(bufs, r, SStr), T{"str.empty", SStr}))
 		return scalar(mk(SIface, "iref", tag, r))
 	case "(*sync.Pool).Put":
+		// what goes back into the pool must be empty: the next Get hands it out as it is
+		if len(args) == 2 && args[1].K == vScalar && args[1].T.Sort == SIface {
+			bufs := x.heapSym(s, "ghost:buf", SArray(SInt, SStr))
+			x.oblige(s, "call-requires", x.label(in)+"/pooled-builder-empty", Eq(Select(bufs, mk(SInt, "iptr", args[1].T), SStr), T{"str.empty", SStr}), in.Pos(), []string{"C09"})
+		}
 		return Val{K: vNone}
 	case "(*sync.RWMutex).RLock", "(*sync.RWMutex).RUnlock", "(*sync.RWMutex).Lock", "(*sync.RWMutex).Unlock":
 		x.lockOp(s, in, f.Name(), args[0])
